@@ -799,7 +799,15 @@ class BaseOdeModel(object):
             # else:
             #     raise InputError("Input type should either be a string or list")
 
-            self._state_lims=lim_list                           # TODO: maybe assigning limits via a dict is tidier/safer
+            # A range style name such as "y1:4" declares several states at once,
+            # each of which needs its own copy of the limits.
+            expanded_lim_list=[]
+            for att, lim in zip(attr_list, lim_list):
+                syms=symbols(att.ID if isinstance(att, ODEVariable) else att)
+                n_syms=len(syms) if isinstance(syms, (tuple, list)) else 1
+                expanded_lim_list += [lim]*n_syms
+
+            self._state_lims=expanded_lim_list                  # TODO: maybe assigning limits via a dict is tidier/safer
             self.__setattr__(attr_list_name, list(attr_list))
 
         else:
